@@ -792,19 +792,29 @@ def parse_key_discipline(r, idx):
             r.undecided('MathParser.parse: %s' % what, 'local `%s` has several definitions; cannot tell which string is used' % multi[0],
                         lib.loc(fi, node))
             return
-    # (1) one value in every role
+    # (1) one value in every role (probe = membership test / fetch / get, whichever forms the code uses)
     ref_what, ref, ref_node, _ = vals[0]
     same = True
+    role_ok = {}
     for what, x, node, expr in vals[1:]:
+        role = 'cache key (store)' if 'store' in what else 'cache key (probe)'
         if nf.equal(nf.canon(ref), nf.canon(x)):
-            r.ok('MathParser.parse: %s' % what, 'same value as the parsed string: %s' % short(x), lib.loc(fi, node))
+            role_ok.setdefault(role, []).append((what, x, node))
             continue
         same = False
+        role_ok.setdefault(role, [])
         r.violation('MathParser.parse: %s' % what, 'cache key and parsed text use different normal forms: the %s is `%s` but the '
                     'string handed to raw_parse is `%s`. Two inputs with the same key and different parsed texts share one cache '
                     'entry, so what a string evaluates to (or whether it is rejected) depends on which spelling was parsed first; '
                     'and a string is judged by a text other than the one looked up' % (what, unparse(x), unparse(ref)),
                     lib.loc(fi, node), expected=unparse(ref), found=unparse(x))
+    for role, good in sorted(role_ok.items()):
+        n_role = sum(1 for what, x, node, expr in vals[1:] if ('store' in what) == ('store' in role))
+        if good and len(good) == n_role:
+            r.ok('MathParser.parse: %s' % role, 'same value as the parsed string (%s): %s' % (
+                ', '.join(w.split('(')[-1].rstrip(')') for w, x, n in good), short(good[0][1])), lib.loc(fi, good[0][2]))
+    if 'cache key (probe)' not in role_ok:
+        r.undecided('MathParser.parse: cache key (probe)', 'no cache look-up recognised', fi.loc)
     # (2) the normalisation itself: spaces, and only spaces, are removed
     seen = []
     for what, x, node, expr in (vals if not same else vals[:1]):
@@ -839,7 +849,7 @@ def _assigned(fn):
 
 def d5_whitespace(ctx, idx, st):
     r = ctx.rule('D5.SPACE', 'cache key and parse string are the same space-stripped string; blank input is nan; '
-                             'white-space handling of pyparsing is untouched', floor=9)
+                             'white-space handling of pyparsing is untouched', floor=8)
     with r:
         parse_key_discipline(r, idx)
         # evaluator front door
@@ -858,12 +868,18 @@ def d5_whitespace(ctx, idx, st):
             if len(gs) == 2 and nf.match('%s is not None' % F, gs[0]) is not None and (
                     nf.match("%s.strip() == ''" % F, gs[1]) is not None or nf.match('not %s.strip()' % F, gs[1]) is not None):
                 blank_ok = blank_ok or is_nan
-        r.check(none_ok, 'evaluator: None', 'evaluates to nan', 'a missing formula (None) no longer evaluates to nan', ev.loc)
+        if none_ok:
+            r.ok('evaluator: None', 'evaluates to nan', ev.loc)
+        else:
+            r.undecided('evaluator: None', 'no path `formula is None -> nan` recognised', ev.loc)
         if not blank_ok:
             raw = any(len(p.guards) == 2 and (nf.match("%s == ''" % F, p.guards[1]) is not None) for p in paths if p.leaf.kind == 'ret')
-            r.violation('evaluator: blank input', ('the emptiness test is applied to the unstripped formula: a submission of '
-                        'blanks is sent to the parser and rejected instead of evaluating to nan') if raw else
-                        'no path maps an empty (after strip) formula to nan', ev.loc, expected="formula.strip() == '' -> nan")
+            if raw:
+                r.violation('evaluator: blank input', 'the emptiness test is applied to the unstripped formula: a submission of '
+                            'blanks is sent to the parser and rejected instead of evaluating to nan', ev.loc,
+                            expected="formula.strip() == '' -> nan")
+            else:
+                r.undecided('evaluator: blank input', 'no path `formula.strip() == "" -> nan` recognised', ev.loc)
         else:
             r.ok('evaluator: blank input', 'strip() then empty -> nan', ev.loc)
         # nothing touches pyparsing's white-space handling
@@ -988,8 +1004,12 @@ def d6_rejection(ctx, idx, st):
                 guards.append(n)
         guards = [n for n in guards if 'max_array_dim' in lib.names_in(n.test)]
         if not guards:
-            r.violation('evaluator: max_array_dim', 'no refusal guarded by max_array_dim is left: array literals of any depth '
-                        'are evaluated', ev.loc)
+            used = any(isinstance(n, ast.Name) and n.id == 'max_array_dim' for n in walk_own(ev.node))
+            if used or idx.unreviewed:
+                r.undecided('evaluator: max_array_dim', 'max_array_dim is used, but no guarded refusal was recognised', ev.loc)
+            else:
+                r.violation('evaluator: max_array_dim', 'the max_array_dim argument is never looked at: array literals of any depth '
+                            'are evaluated', ev.loc)
         else:
             n = guards[0]
             binds = {}
@@ -1010,8 +1030,12 @@ def d6_rejection(ctx, idx, st):
         stores = [n for n in walk_own(ea.node) if isinstance(n, ast.Assign) and any(
             isinstance(t, ast.Subscript) and lib.subscript_key(t) == 'max_array_dim_used' for t in n.targets)]
         if not stores:
-            r.violation('eval_array: depth record', "eval_array no longer stores the dimension it builds in "
-                        "metadata['max_array_dim_used']: the max_array_dim limit is never exceeded", ea.loc)
+            used = D is not None and any(isinstance(n, ast.Name) and n.id == D for n in walk_own(ea.node))
+            if used or idx.unreviewed:
+                r.undecided('eval_array: depth record', 'the metadata argument is used, but no store of the depth was recognised', ea.loc)
+            else:
+                r.violation('eval_array: depth record', "eval_array never touches its metadata argument: the dimension it builds is "
+                            "not recorded in metadata['max_array_dim_used'], so the max_array_dim limit is never exceeded", ea.loc)
         for s_ in stores:
             val = lib.inline_locals(s_.value, ea.node)
             if nf.match('max(_A, _B)', val) is not None:
